@@ -588,7 +588,28 @@ func c15Rnd(v c15Vec, id int, dir string) []c15Obs {
 // content - an export has to replace what is there, not write over its beginning.
 func c15Prefill(p string, i int) {
 	os.Remove(p)
-	if i%3 == 0 {
+	switch {
+	case i%6 == 3:
+		// a longer, well-formed file of the SAME kind written by the library itself (a stale tail of it would still
+		// parse: extra lines / entities / records)
+		var ls []*sdf.Line2
+		var ts []*sdf.Triangle3
+		for k := 0; k < 1500; k++ {
+			x := float64(900000 + k)
+			ls = append(ls, &sdf.Line2{{X: x, Y: 0}, {X: x, Y: 1}})
+			ts = append(ts, &sdf.Triangle3{{X: x, Y: 0, Z: 0}, {X: x, Y: 1, Z: 0}, {X: x, Y: 0, Z: 1}})
+		}
+		switch {
+		case strings.HasSuffix(p, ".svg"):
+			render.SaveSVG(p, "fill:none;stroke:black;stroke-width:0.1", ls)
+		case strings.HasSuffix(p, ".dxf"):
+			render.SaveDXF(p, ls)
+		case strings.HasSuffix(p, ".stl"):
+			render.SaveSTL(p, ts)
+		default:
+			os.WriteFile(p, bytes.Repeat([]byte("PK\x03\x04 an earlier, longer export "), 6000), 0644)
+		}
+	case i%3 == 0:
 		junk := bytes.Repeat([]byte("<!-- an earlier, longer export -->\n0\nSECTION\nPK\x03\x04 stale "), 6000)
 		os.WriteFile(p, junk, 0644)
 	}
